@@ -166,7 +166,7 @@ def run(ctx, res):
             res.corr_break('small_factors(%d, %d): code %s, model %s' % (n, mf, r, m), {'call': 'lark.utils.small_factors', 'args': [n, mf], 'code': r, 'model': m})
 
     # (b) helper-rule tree
-    M = tier_scale(tier, 70, 160)
+    M = tier_scale(tier, 90, 180)
     pairs = [(mn, mx) for mx in range(0, M) for mn in range(0, mx + 1)]
     pairs += [(mn, mn + d) for mn, d in ((rng.randrange(0, 600), rng.choice([0, 1, 2, rng.randrange(0, 500)])) for _ in range(tier_scale(tier, 300, 3000)))]
     real = pmap(_tree_case, pairs, chunksize=64)
